@@ -290,6 +290,8 @@ pub struct Child {
     pub wake_on_drop: bool,
     /// what a stream leaf reports from size_hint(): 0 = (0, None), 1 = exact, 2 = (rem/2, Some(rem+3)) — always legal
     pub hint_mode: u8,
+    /// leaf type WITHOUT drop glue (`needs_drop::<Fut>() == false`): its drop cannot be observed, its values can
+    pub plain: bool,
 }
 impl Child {
     pub fn leaf(kind: Kind, script: Vec<Step>) -> Child {
@@ -321,6 +323,7 @@ impl Child {
             resumable: false,
             wake_on_drop: false,
             hint_mode: 0,
+            plain: false,
         }
     }
     pub fn node(fam: Fam, cont: Cont, n: usize) -> Child {
@@ -414,6 +417,7 @@ pub struct Stats {
     pub post_final_panics: u64,
     pub fires_in_drop: u64,
     pub thread_rendezvous: u64,
+    pub plain_cases: u64,
 }
 impl Stats {
     pub fn fields(&self) -> Vec<(&'static str, u64)> {
@@ -468,6 +472,7 @@ impl Stats {
             ("wait_until_streams_polled_on_after_none", self.polls_after_none),
             ("fires_from_child_destructors", self.fires_in_drop),
             ("vec_inputs_with_spare_capacity", self.vec_spare_capacity),
+            ("cases_with_children_without_drop_glue", self.plain_cases),
             ("stream_polls_after_final_none", self.post_final_polls),
             ("stream_polls_after_final_none_that_panicked_by_design", self.post_final_panics),
         ]
@@ -485,7 +490,7 @@ impl Stats {
             quiescent_checks, i1_obligations, i4_obligations, model_polls_checked, never_children,
             co_closure_calls, co_gauge_checks, co_errors, fairness_windows, thread_fires, thread_fires_stale,
             thread_root_wakes, thread_root_wakes_stale, thread_waits, polls_after_none, vec_spare_capacity,
-            post_final_polls, post_final_panics, fires_in_drop, thread_rendezvous
+            post_final_polls, post_final_panics, fires_in_drop, thread_rendezvous, plain_cases
         );
         self.co_max_gauge = self.co_max_gauge.max(o.co_max_gauge);
     }
